@@ -7,6 +7,7 @@ import (
 	channeltypes "github.com/cosmos/ibc-go/v10/modules/core/04-channel/types"
 
 	consumertypes "github.com/cosmos/interchain-security/v7/x/ccv/consumer/types"
+	ibcprovider "github.com/cosmos/interchain-security/v7/x/ccv/provider"
 	providertypes "github.com/cosmos/interchain-security/v7/x/ccv/provider/types"
 	ccvtypes "github.com/cosmos/interchain-security/v7/x/ccv/types"
 
@@ -32,8 +33,9 @@ func NewC12(w *world.World) *C12 {
 func (m *C12) Before(*world.World, *world.Action) {}
 
 func decodeSlash(data []byte) (ccvtypes.SlashPacketData, bool) {
-	var cp ccvtypes.ConsumerPacketData
-	if err := ccvtypes.ModuleCdc.UnmarshalJSON(data, &cp); err != nil || cp.Type != ccvtypes.SlashPacket || cp.GetSlashPacketData() == nil {
+	// consumers put slash packets on the wire in the v1 format; decode as the provider's IBC module does
+	cp, err := ibcprovider.UnmarshalConsumerPacketData(data)
+	if err != nil || cp.Type != ccvtypes.SlashPacket || cp.GetSlashPacketData() == nil {
 		return ccvtypes.SlashPacketData{}, false
 	}
 	return *cp.GetSlashPacketData(), true
@@ -84,6 +86,12 @@ func (m *C12) After(w *world.World, a *world.Action, r *world.StepResult) *Viola
 			}
 			eh, known := m.rc.idHeight[id]
 			if !known {
+				if id == k.GetValidatorSetUpdateId(ctx) || id+1 == k.GetValidatorSetUpdateId(ctx) {
+					// the id in use when the packet was handled: it has a height (mapped every block) although no
+					// packet carried it yet; only a malicious consumer can name it
+					w.Label("slash-current-id")
+					continue
+				}
 				return violf(P, "slash-unknown-id", "the provider handled a slash packet with id %d that it never issued", id)
 			}
 			if h != eh+1 {
